@@ -124,7 +124,7 @@ structure CommitShape (s : Sys) (t : Nat) (s' : Sys) : Prop where
   nextCid : s'.nextCid = s.nextCid
   cfs : s'.cfs = s.cfs
   counter : s.counter ≤ s'.counter
-  reg : s'.reg = s.reg ∨ s'.reg = s.reg.filter (·.id ≠ t)
+  reg : (s'.reg = s.reg ∧ (t = mainTx ∨ s.reg.find? (·.id = t) = none)) ∨ s'.reg = s.reg.filter (·.id ≠ t)
   txs : ∀ t', t' ≠ t → s'.txs t' = s.txs t'
   main : ∀ k, ∃ ext, s'.main k = s.main k ++ ext ∧ ∀ v ∈ ext, v.seq = s.counter + 1
 
@@ -134,12 +134,13 @@ theorem CommitShape.pending {s s' : Sys} {t : Nat} (h : CommitShape s t s') (p :
 theorem commit_shape (s : Sys) (t : Nat) : CommitShape s t (s.commit t).1 := by
   have hnil : ∀ k, ∃ ext, s.main k = s.main k ++ ext ∧ ∀ v ∈ ext, v.seq = s.counter + 1 :=
     fun k => ⟨[], by simp, by simp⟩
-  have hrefl : CommitShape s t s := ⟨rfl, rfl, Nat.le_refl _, Or.inl rfl, fun _ _ => rfl, hnil⟩
+  have hrefl : (t = mainTx ∨ s.reg.find? (·.id = t) = none) → CommitShape s t s :=
+    fun hc => ⟨rfl, rfl, Nat.le_refl _, Or.inl ⟨rfl, hc⟩, fun _ _ => rfl, hnil⟩
   unfold Sys.commit
   split
-  · exact hrefl
+  · rename_i ht; exact hrefl (Or.inl ht)
   · split
-    · exact hrefl
+    · rename_i hnf; exact hrefl (Or.inr hnf)
     · rename_i tx hfind
       have hid : tx.id = t := by simpa using List.find?_some hfind
       have hpend : ∀ (r : Sys × List Ver × Bool), CommitShape s t r.1 →
@@ -182,12 +183,13 @@ theorem latest_append_ext {s : Sys} (i : Inv s) (k : Key) (ext : List Ver) (hext
 theorem rollback_shape (s : Sys) (t : Nat) : CommitShape s t (s.rollback t).1 := by
   have hnil : ∀ k, ∃ ext, s.main k = s.main k ++ ext ∧ ∀ v ∈ ext, v.seq = s.counter + 1 :=
     fun k => ⟨[], by simp, by simp⟩
-  have hrefl : CommitShape s t s := ⟨rfl, rfl, Nat.le_refl _, Or.inl rfl, fun _ _ => rfl, hnil⟩
+  have hrefl : (t = mainTx ∨ s.reg.find? (·.id = t) = none) → CommitShape s t s :=
+    fun hc => ⟨rfl, rfl, Nat.le_refl _, Or.inl ⟨rfl, hc⟩, fun _ _ => rfl, hnil⟩
   unfold Sys.rollback
   split
-  · exact hrefl
+  · rename_i ht; exact hrefl (Or.inl ht)
   · split
-    · exact hrefl
+    · rename_i hnf; exact hrefl (Or.inr hnf)
     · dsimp only
       split
       · exact ⟨rfl, rfl, Nat.le_refl _, Or.inr rfl, fun _ _ => rfl, hnil⟩
@@ -204,7 +206,7 @@ theorem frame_of_shape {s s' : Sys} (i : Inv s) {t : Nat} (h : CommitShape s t s
   refine ⟨by omega, h3, ?_, ?_, ?_, ?_, ?_⟩
   · intro cid _; left; simp [Sys.hasContent, h2]
   · intro t' ht'
-    rcases h4 with h4 | h4
+    rcases h4 with ⟨h4, _⟩ | h4
     · simp [Sys.regGet, h4]
     · exact regGet_filter s t t' ht' _ h4
   · intro t' k ht' hm
@@ -213,9 +215,22 @@ theorem frame_of_shape {s s' : Sys} (i : Inv s) {t : Nat} (h : CommitShape s t s
     obtain ⟨ext, he, hext⟩ := h6 k
     rw [he]; exact latest_append_ext i k ext hext m h
   · intro r hr
-    rcases h4 with h4 | h4
+    rcases h4 with ⟨h4, _⟩ | h4
     · rw [h4] at hr; exact Or.inl hr
     · rw [h4] at hr; exact Or.inl (mem_of_filter hr)
+
+/-- after Commit / Rollback of `t` nothing registered carries the id `t` -/
+theorem shape_reg_ne {s s' : Sys} (i : Inv s) {t : Nat} (h : CommitShape s t s') : ∀ r ∈ s'.reg, r.id ≠ t := by
+  intro r hr
+  rcases h.reg with ⟨h4, hc⟩ | h4
+  · rw [h4] at hr
+    rcases hc with hc | hc
+    · rw [hc]; exact i.regMain r hr
+    · have := List.find?_eq_none.mp hc r hr
+      simpa using this
+  · rw [h4] at hr
+    have := (List.mem_filter.mp hr).2
+    simpa using this
 
 theorem frame_commit {s : Sys} (i : Inv s) (t : Nat) : Frame s (s.commit t).1 t := frame_of_shape i (commit_shape s t)
 
@@ -223,6 +238,13 @@ theorem frame_rollback {s : Sys} (i : Inv s) (t : Nat) : Frame s (s.rollback t).
 
 theorem frame_gcDraw (s : Sys) (t : Nat) : Frame s (gcDraw s) t := by
   unfold gcDraw
+  split
+  · exact Frame.rfl' s t
+  · refine ⟨Nat.le_refl _, Nat.le_succ _, fun _ _ => Or.inl rfl, fun _ _ => rfl, fun _ _ _ _ => rfl,
+      fun _ m h => ⟨m, h, Nat.le_refl _⟩, fun _ h => Or.inl h⟩
+
+theorem frame_gcDrawX (s : Sys) (cl : List Nat) (t : Nat) : Frame s (gcDrawX s cl) t := by
+  unfold gcDrawX
   split
   · exact Frame.rfl' s t
   · refine ⟨Nat.le_refl _, Nat.le_succ _, fun _ _ => Or.inl rfl, fun _ _ => rfl, fun _ _ _ _ => rfl,
